@@ -70,7 +70,9 @@ TEXT = {
            "the loop (defect D9 found and repaired), the neighbourhood / "
            "reachability helpers and the definition of the loop components "
            "(which set from which, under which case split), the visiting "
-           "order of the components, next-path / merge-point handlers "
+           "order of the components, the pruned set of a loop body is final, the "
+           "dictionary saved is the dictionary updated (shared with C04), "
+           "next-path / merge-point handlers "
            "(which value is returned under which condition), no crossed "
            "positional hand-off, faithful records (attributes assigned "
            "before they are read along the constructor chain, parameters "
@@ -182,7 +184,9 @@ TEXT = {
            "the loader's validation model passes them through unchanged, a record is rejected only for a missing key, "
            "an exhausted generator never reaches the learner, the mapping "
            "config reaches saver and loader, file listings take paths "
-           "literally, a loaded event is the transformed record itself.",
+           "literally, a loaded event is the transformed record itself, a "
+           "job file that cannot be written aborts the export (no swallowing "
+           "handler around the save).",
     "C15": "Enumerates every persistent write a run performs and decides a "
            "re-run-safety obligation for each (hash rows cleared before "
            "insert, link rows deleted with their nodes, run-time tables "
